@@ -89,11 +89,13 @@ def index_sets(obj, t, steps, r, limit=12):
         for idx, cur, ct in res:
             if s[0] == "f":
                 ft = dict(ct[2])[s[1]]
-                sub = getattr(cur, s[1]) if ft[0] not in ("scalar", "string") else None
                 if ft[0] == "ref":
                     nxt.append((idx, (cur, s[1], "reffield"), ft))
+                elif ft[0] in ("scalar", "string", "uref"):
+                    # the accessor addresses the SLOT (for a union reference: the 16-byte slot, not the referent)
+                    nxt.append((idx, (cur, s[1], "leaf"), ft))
                 else:
-                    nxt.append((idx, sub if sub is not None or ft[0] in ("uref",) else (cur, s[1], "leaf"), ft))
+                    nxt.append((idx, getattr(cur, s[1]), ft))
             elif s[0] == "r":
                 # cur is a (container, key, 'reffield'|'refitem') marker -> resolve
                 c, key, kind = cur
